@@ -141,7 +141,11 @@ class Gen:
     def extra(self, depth, in_loop):
         """rarer constructs"""
         ind = lambda lines: ["    " + l for l in lines]
-        k = R.randrange(15)
+        k = R.randrange(17)
+        if k in (15, 16):    # formatted strings
+            forms = ["emit('%%s|%%r' %% (%s, %s))" % (self.iexpr(), self.iexpr()), "emit('n=%%d v=%%s' %% (len(xs), %s))" % self.iexpr(), "emit('{}-{}'.format(%s, %s))" % (self.iexpr(), self.iexpr()),
+                     "emit('v%%s' %% %s)" % R.choice(self.ints), "emit('100%%%% %%s' %% %s)" % self.iexpr()]
+            return [R.choice(forms)]
         if k == 9:      # explicit raise under a condition
             return ["if %s:" % self.cond()] + ind(["raise %s(%s)" % (R.choice(["ValueError", "KeyError"]), self.iexpr())])
         if k == 10 and not in_loop:     # witness search returning from inside the loop
@@ -310,6 +314,32 @@ class ExtractHelper(ast.NodeTransformer):
         return node
 
 
+class ToFString(ast.NodeTransformer):
+    """'..%s..%r..' % (a, b) and '..{}..'.format(a) as f-strings ({a!s} or {a} at random, %d of len(xs) as {len(xs):d} or {len(xs)})"""
+    def visit_BinOp(self, node):
+        self.generic_visit(node)
+        import re
+        if isinstance(node.op, ast.Mod) and isinstance(node.left, ast.Constant) and isinstance(node.left.value, str) and R.random() < 0.8:
+            parts = re.split(r"(%[srd]|%%)", node.left.value)
+            args = list(node.right.elts) if isinstance(node.right, ast.Tuple) else [node.right]
+            vals, k = [], 0
+            for p_ in parts:
+                if p_ == "%%":
+                    vals.append(ast.Constant(value="%"))
+                elif p_ in ("%s", "%r", "%d"):
+                    a = args[k]
+                    k += 1
+                    if p_ == "%d":
+                        spec = ast.JoinedStr(values=[ast.Constant(value="d")]) if R.random() < 0.5 else None
+                        vals.append(ast.FormattedValue(value=a, conversion=-1, format_spec=spec))
+                    else:
+                        vals.append(ast.FormattedValue(value=a, conversion=114 if p_ == "%r" else R.choice([-1, 115]), format_spec=None))
+                elif p_:
+                    vals.append(ast.Constant(value=p_))
+            return ast.JoinedStr(values=vals)
+        return node
+
+
 _VOCAB = ("min", "max", "abs", "len", "pf", "d", "xs", "sum", "chk", "pair", "any", "all", "zip", "emit", "ys", "zs", "acc")
 
 
@@ -362,7 +392,7 @@ def rewrite(fn):
     helpers = {}
     names = []
     choices = [("T1", nf_twins.T1), ("T3", nf_twins.T3), ("T4", nf_twins.T4), ("T6", nf_twins.T6), ("DeMorgan", DeMorgan), ("NegCompare", NegCompare),
-               ("MinMaxToIf", MinMaxToIf), ("TempIntro", TempIntro), ("IfExpToIf", IfExpToIf), ("ExtractHelper", ExtractHelper), ("ExtractValueHelper", ExtractValueHelper)]
+               ("MinMaxToIf", MinMaxToIf), ("TempIntro", TempIntro), ("IfExpToIf", IfExpToIf), ("ExtractHelper", ExtractHelper), ("ExtractValueHelper", ExtractValueHelper), ("ToFString", ToFString)]
     for name, T in R.sample(choices, R.randint(1, 4)):
         t = T()
         f2 = t.generic_visit(f2)
